@@ -24,12 +24,23 @@ def delegation(rep, prop, table, fname):
         if f is None:
             rep.broke("anchor vanished: %s::%s" % (cls, fname))
             continue
+        # in-repo call closure (generic-layer forwarders such as operator* -> compose are followed), depth <= 4
         called = set()
-        for x in A.walk(f):
-            if A.is_call(x) and x.get("inrepo"):
-                c = str(x.get("cls", ""))
-                if c in ("manif::SO3TangentBase", "manif::SO3Base", "manif::TangentBase", "manif::LieGroupBase") or x.get("fn", "").endswith("fillE"):
-                    called.add(A.short(x.get("fn")))
+        seen, todo = set(), [(f, 0)]
+        while todo:
+            g, d = todo.pop()
+            if g["id"] in seen or d > 4:
+                continue
+            seen.add(g["id"])
+            for x in A.walk(g):
+                if A.is_call(x) and x.get("inrepo"):
+                    c = str(x.get("cls", ""))
+                    if c in ("manif::SO3TangentBase", "manif::SO3Base") or x.get("fn", "").endswith("fillE"):
+                        called.add(A.short(x.get("fn")))
+                    elif c in ("manif::TangentBase", "manif::LieGroupBase") and "SO3" in str(x.get("clsargs")):
+                        callee = F.by_id.get(x.get("fid"))
+                        if callee is not None and callee.get("body"):
+                            todo.append((callee, d + 1))
         n += 1
         rep.obligation(need <= called, lambda f=f, need=need, called=called: C.Finding(
             prop, "R-FWD.delegation", f["name"], "%s no longer obtains %s from the SO3 implementation (calls: %s): the shared small-angle switch does not cover it" % (fname, sorted(need - called), sorted(called)),
